@@ -274,6 +274,29 @@ class Formula:
                 raise AnalysisBroken("LAU: %s updates %s.%s with a value outside the algebra" % (self.f.name, key[0], key[1]))
             self.store[key] = self._apply(old, v, kind)
 
+    def _init_struct(self, name, tname, il):
+        """member-wise initial values of a struct local from its (fully ordered) initialiser list; nested records are
+        flattened by field name like everywhere else in this evaluator"""
+        rec = self.m.records.get(tname)
+        if not rec:
+            return
+        vals = kids(il)
+        for (fname, ftype, _fd), v in zip(rec, vals):
+            v0 = strip(v, casts=True)
+            ft = (ftype or "").replace("const ", "").strip()
+            if ft.startswith("struct ") and not ft.endswith("*"):
+                if v0["kind"] == "InitListExpr":
+                    self._init_struct(name, ft[7:].strip(), v0)
+                continue
+            if fname in self.opaque:
+                continue
+            if v0["kind"] == "ImplicitValueInitExpr":
+                self.store[(name, fname)] = LP()
+                continue
+            val = self.ev(v0)
+            if val is not None:
+                self.store[(name, fname)] = val
+
     @staticmethod
     def _apply(old, v, kind):
         if kind == "+=":
@@ -360,6 +383,8 @@ class Formula:
                     elif t.startswith("struct ") or t.startswith("const struct "):
                         self.local_structs.add(vd["name"])
                         i0 = strip(init, casts=True) if init is not None else None
+                        if i0 is not None and i0["kind"] == "InitListExpr":
+                            self._init_struct(vd["name"], t.replace("const ", "").replace("struct ", "").strip(), i0)
                         if i0 is not None and i0["kind"] != "InitListExpr":
                             src = self.root(i0)
                             if src is None:
